@@ -299,3 +299,98 @@ Print Assumptions C11_holder_releases.
 Theorem C11_serialisation_is_permutation : forall tr, Permutation tr (ser tr).
 Proof. exact ser_permutation. Qed.
 Print Assumptions C11_serialisation_is_permutation.
+
+(* ---- round 6 *)
+(* frame of the serialisation: an execution that is already serial is returned unchanged, so serialising is idempotent *)
+Theorem C11_serialisation_fixes_serial : forall tr, serial None tr -> ser tr = tr.
+Proof. exact ser_serial_id. Qed.
+Print Assumptions C11_serialisation_fixes_serial.
+
+Theorem C11_serialisation_idempotent : forall prot m tr s, run (init m) tr = Some s -> disciplined prot tr -> ser (ser tr) = ser tr.
+Proof. exact ser_idempotent. Qed.
+Print Assumptions C11_serialisation_idempotent.
+
+(* the classic formulation of data-race freedom: no reachable state of the program enables two conflicting accesses of different
+   threads at the same time (if both one-event extensions are executions of disciplined threads, the threads are the same) *)
+Theorem C11_no_simultaneous_conflict : forall m tr s i e1 j e2,
+  run (init m) tr = Some s ->
+  runs_program entry_points (tr ++ [(i, e1)]) -> runs_program entry_points (tr ++ [(j, e2)]) ->
+  conflict e1 e2 -> i = j.
+Proof.
+  exact (fun m tr s i e1 j e2 Hr H1 H2 =>
+    no_simultaneous_conflict (prot_of (written entry_points)) m tr s i e1 j e2 Hr
+      (program_disciplined entry_points _ skeleton_ok H1) (program_disciplined entry_points _ skeleton_ok H2)).
+Qed.
+Print Assumptions C11_no_simultaneous_conflict.
+
+(* the ownership discipline is DECIDABLE: completeness direction added to C11_ownership_discipline_decided *)
+Local Open Scope Z_scope.
+Theorem C11_ownership_discipline_iff : forall c ops st own, conc_okb c st own ops = true <-> conc_ok c st own ops.
+Proof. exact conc_okb_iff. Qed.
+Print Assumptions C11_ownership_discipline_iff.
+
+(* ... and it really excludes something: thread 1 releasing thread 0's span is not a disciplined history *)
+Theorem C11_undisciplined_history_rejected :
+  ~ conc_ok cfg_f (init_state cfg_f) [] [(0%nat, OAlloc 100); (1%nat, ORelease 0 64)].
+Proof. exact conc_ok_negative_example. Qed.
+Print Assumptions C11_undisciplined_history_rejected.
+
+(* what a thread gets from a successful alloc in the middle of ANY concurrent history (C09_alloc_result lifted) and, new, that the
+   span it gets is owned by nobody - neither by another thread nor by itself *)
+Theorem C11_c09_alloc_result_concurrent : forall c st own size st' id off len, cfg_ok c -> conc_reach c st own ->
+  0 <= size -> size + c_gran c <= two64 -> alloc c st size = (st', RAlloc Ok id off len) ->
+  (size <= len < size + c_gran c /\ len mod c_gran c = 0 /\
+   exists b, In b (blocks st') /\ b_id b = id /\ b_pool b = size_to_pool c len /\
+             off mod pool_gran c (b_pool b) = 0 /\ len mod pool_gran c (b_pool b) = 0 /\
+             In (off / pool_gran c (b_pool b), len / pool_gran c (b_pool b)) (b_live b) /\
+             (nextid st' <> nextid st ->
+              forall b0, In b0 (blocks st) -> b_pool b0 = b_pool b -> no_room b0 (len / pool_gran c (b_pool b)))) /\
+  (forall (j : nat) k, In (j, k) own -> k <> (id, off / pool_gran c (size_to_pool c len))).
+Proof. exact conc_alloc_result. Qed.
+Print Assumptions C11_c09_alloc_result_concurrent.
+Local Close Scope Z_scope.
+
+(* warm threads cannot race on the process-wide caches: any number of threads calling the checked cache functions with every
+   guard flag already set - no two of their events conflict, whatever the interleaving (there is no write at all) *)
+Theorem C11_statics_warm_threads_race_free : forall (ts : list (list vev)),
+  (forall t, In t ts -> exists name s fl, In (name, s) static_entry_points /\ vexec s t fl /\ forall g, ~ In (VZero g) t) ->
+  forall t1 t2 a b, In t1 ts -> In t2 ts -> In a t1 -> In b t2 -> ~ vconflict a b.
+Proof. exact (fun ts => warm_threads_race_free static_entry_points ts statics_ok). Qed.
+Print Assumptions C11_statics_warm_threads_race_free.
+
+Theorem C11_statics_warm_threads_satisfiable :
+  let t := [VTau; VRd "VirtMem::info::vm_info"%string] in
+  vcheck_program [("f"%string, info_like)] = [] /\ vexec info_like t false /\ (forall g, ~ In (VZero g) t) /\
+  In (VRd "VirtMem::info::vm_info"%string) t.
+Proof. exact warm_threads_race_free_sat. Qed.
+Print Assumptions C11_statics_warm_threads_satisfiable.
+
+(* the entry points excluded by the documented contract (JitAllocator::reset, JitRuntime::reset) are translated too, and the checker
+   REJECTS them: they touch protected members without the lock, so leaving them out of the thread-safe set is necessary, not
+   merely convenient (re-proved per run over the regenerated skeleton) *)
+Theorem C11_reset_exclusion_necessary : forall p, In p excluded_entry_skeletons -> chk (written entry_points) false (snd p) <> [].
+Proof. exact (excluded_unsafe_sound entry_points excluded_entry_skeletons excluded_unsafe). Qed.
+Print Assumptions C11_reset_exclusion_necessary.
+
+(* COMPLETENESS of the lock-discipline check on live code: whenever the reachability-aware checker `viol` finds an unlocked
+   access to a protected member, a re-acquire or an unsupported lock construct, SOME execution of the skeleton really breaks
+   the discipline - there are no false alarms except on dead code (statements after one that cannot complete normally) ... *)
+Theorem C11_checker_complete_on_live_code : forall wr s h, viol wr h s = true ->
+  exists t abrupt, exec s t abrupt /\ wl (prot_of wr) h t = None.
+Proof. exact viol_complete. Qed.
+Print Assumptions C11_checker_complete_on_live_code.
+
+(* ... and the reflective checker used for the obligations is at least as strict: what it accepts has no live violation *)
+Theorem C11_checkers_agree : forall wr s h, chk wr h s = [] -> viol wr h s = false.
+Proof. exact chk_nil_no_viol. Qed.
+Print Assumptions C11_checkers_agree.
+
+(* non-vacuity, and the dead-code gap made explicit: the write after the locked region is a live violation, the write after a
+   return is flagged only by the (stricter) reflective checker *)
+Theorem C11_checker_completeness_example :
+  let w := SAcc "f"%string "JitAllocatorPool"%string "cursor"%string W in
+  let wr := [("JitAllocatorPool"%string, "cursor"%string)] in
+  viol wr false (SSeq (SLocked "f"%string "JitAllocatorPrivateImpl"%string "lock"%string w) w) = true /\
+  viol wr false (SSeq SRet w) = false /\ chk wr false (SSeq SRet w) <> [].
+Proof. exact viol_example. Qed.
+Print Assumptions C11_checker_completeness_example.
